@@ -66,6 +66,32 @@ def four_fold(k=1):
     return cycles, info
 
 
+def n_fold(n, k=1):
+    """n cells around one inner junction (n = 5, 6, 7: junctions of more than four interfaces)"""
+    J = 77
+    S = [31 + i for i in range(n)]
+    R = [41 + i for i in range(n)]
+    sp = [[100 + 10 * i + j for j in range(k)] for i in range(n)]
+    spokes = [_path(J, sp[i], S[i]) for i in range(n)]
+    cids = [8, 1, 6, 3, 12, 5, 9][:n]
+    cycles = {}
+    for i in range(n):
+        a, b = i, (i + 1) % n
+        cycles[cids[i]] = spokes[a] + [R[i]] + spokes[b][::-1][:-1]
+    ring = [[S[i], R[i], S[(i + 1) % n]] for i in range(n)]
+    info = dict(junction_rows=[J], internal=spokes, external=ring, three_cell_vertices=[J], fold=n,
+                cells_of={tuple(spokes[i]): (cids[(i - 1) % n], cids[i]) for i in range(n)})
+    return cycles, info
+
+
+def five_fold(k=1):
+    return n_fold(5, k)
+
+
+def six_fold(k=1):
+    return n_fold(6, k)
+
+
 def border_fan(k=1):
     """a vertex P on the tissue border shared by three cells: two internal spokes and two border interfaces end there,
     so it has three cells but only two internal interfaces => no equations"""
@@ -123,7 +149,7 @@ def tri_star_two_ears(k=1):
     return cycles, info
 
 
-SHAPES = {"tri_star": tri_star, "tri_star_ear": tri_star_ear, "tri_star_two_ears": tri_star_two_ears, "double_y": double_y, "four_fold": four_fold, "border_fan": border_fan}
+SHAPES = {"tri_star": tri_star, "tri_star_ear": tri_star_ear, "tri_star_two_ears": tri_star_two_ears, "five_fold": five_fold, "six_fold": six_fold, "double_y": double_y, "four_fold": four_fold, "border_fan": border_fan}
 
 
 def vertex_ids(cycles):
